@@ -1,0 +1,21 @@
+//go:build verif
+// +build verif
+
+package destination
+
+import "time"
+
+// VerifSchedPoint, when set, is called at named points of the connection goroutines,
+// so that a verification harness can hold a goroutine there (an adversarial schedule)
+var VerifSchedPoint func(point string, buf []byte)
+
+func verifSchedPoint(p string, buf []byte) {
+	if f := VerifSchedPoint; f != nil {
+		f(p, buf)
+	}
+}
+
+// VerifSetKeepDuration sets the rotation period used by keepSafe buffers of connections created from now on
+func VerifSetKeepDuration(d time.Duration) {
+	keepsafe_keep_duration = d
+}
